@@ -676,6 +676,7 @@ fn parts(ctx: &Ctx) -> Vec<PartSpec> {
         v.push(PartSpec::new("public-api-d6", json!({"dom": "api", "depth": 6})).budget(150.0));
         v.push(PartSpec::new("zero-sized-elements", json!({"dom": "zst"})));
         v.push(PartSpec::new("auto-traits", json!({"dom": "auto"})));
+        v.push(PartSpec::new("lifetime-probes", json!({"dom": "lifetimes"})));
     } else {
         for f in 0..N_CONSTRUCT {
             v.push(PartSpec::new(&format!("str-d7-first{}", f), json!({"dom": "str", "depth": 7, "first": f})).budget(3000.0));
@@ -684,6 +685,7 @@ fn parts(ctx: &Ctx) -> Vec<PartSpec> {
         v.push(PartSpec::new("public-api-d8", json!({"dom": "api", "depth": 8})).budget(3000.0));
         v.push(PartSpec::new("zero-sized-elements", json!({"dom": "zst"})));
         v.push(PartSpec::new("auto-traits", json!({"dom": "auto"})));
+        v.push(PartSpec::new("lifetime-probes", json!({"dom": "lifetimes"})));
     }
     v
 }
@@ -829,6 +831,91 @@ fn auto_traits_part(res: &mut PartResult) {
     res.sample(json!({"checked": ["Cow<[SyncOnly]>: !Send", "Cow<[SendOnly]>: !Sync", "Cow<str>: Send + Sync", "Cow<[E]>: Send"]}));
 }
 
+/// The borrow a Cow carries is part of its type: a value built from a `&'a T` is a `Cow<'a, T>` and nothing longer.
+/// This is a type-level contract, so it is probed the only way it can be: each program below takes a borrow of local
+/// data through one public construction or accessor and tries to keep it for longer; the compiler must reject every
+/// one of them with a lifetime error, and must accept the control of the same shape that stays within the borrow
+/// (which shows the probe still speaks the current API). The programs are compiled against the repository's cow.rs.
+fn lifetimes_part(ctx: &Ctx, res: &mut PartResult) {
+    res.engine = "compile-time probes: programs that keep a borrow for longer than the data must be rejected (rustc, borrow checker), controls accepted".into();
+    let dir = ctx.run_dir().join("c14-lifetime-probes");
+    let _ = std::fs::remove_dir_all(&dir);
+    std::fs::create_dir_all(&dir).unwrap();
+    let header = "#![allow(dead_code, unused)]\n#[path = \"/repo/metrics/src/cow.rs\"]\nmod cow;\nuse cow::Cow;\nuse std::sync::Arc;\n";
+    // (name, must_compile, body)
+    let probes: Vec<(&str, bool, &str)> = vec![
+        ("from_borrowed-escape", false, "pub fn f() -> Cow<'static, str> { let s = String::from(\"x\"); Cow::from_borrowed(s.as_str()) }"),
+        ("from_borrowed-control", true, "pub fn f<'a>(s: &'a str) -> Cow<'a, str> { Cow::from_borrowed(s) }\npub fn g() -> Cow<'static, str> { Cow::from_borrowed(\"lit\") }"),
+        ("from_borrowed-slice-escape", false, "pub fn f() -> Cow<'static, [u8]> { let v = vec![1u8, 2]; Cow::from_borrowed(&v[..]) }"),
+        ("from_borrowed-used-after-drop", false, "pub fn f() -> usize { let c; { let s = String::from(\"x\"); c = Cow::from_borrowed(s.as_str()); } c.len() }"),
+        ("from-ref-escape", false, "pub fn f() -> Cow<'static, str> { let s = String::from(\"x\"); Cow::from(s.as_str()) }"),
+        ("from-ref-control", true, "pub fn f<'a>(s: &'a str) -> Cow<'a, str> { Cow::from(s) }"),
+        ("from-ref-slice-escape", false, "pub fn f() -> Cow<'static, [u8]> { let v = vec![1u8]; Cow::from(&v[..]) }"),
+        ("const_str-escape", false, "pub fn f() -> Cow<'static, str> { let s = String::from(\"x\"); Cow::const_str(s.as_str()) }"),
+        ("const_str-control", true, "pub const C: Cow<'static, str> = Cow::const_str(\"lit\");\npub fn f<'a>(s: &'a str) -> Cow<'a, str> { Cow::const_str(s) }"),
+        ("const_slice-escape", false, "pub fn f() -> Cow<'static, [u8]> { let v = vec![1u8]; Cow::const_slice(&v[..]) }"),
+        ("const_slice-control", true, "pub fn f<'a>(s: &'a [u8]) -> Cow<'a, [u8]> { Cow::const_slice(s) }"),
+        ("from-std-cow-escape", false, "pub fn f() -> Cow<'static, str> { let s = String::from(\"x\"); Cow::from(std::borrow::Cow::Borrowed(s.as_str())) }"),
+        ("from-std-cow-control", true, "pub fn f<'a>(s: &'a str) -> Cow<'a, str> { Cow::from(std::borrow::Cow::Borrowed(s)) }"),
+        ("lengthen-escape", false, "pub fn f<'a>(c: Cow<'a, str>) -> Cow<'static, str> { c }"),
+        ("shorten-control", true, "pub fn f<'a>(c: Cow<'static, str>, _w: &'a u8) -> Cow<'a, str> { c }"),
+        ("clone-lengthen-escape", false, "pub fn f<'a>(c: &Cow<'a, str>) -> Cow<'static, str> { c.clone() }"),
+        ("clone-control", true, "pub fn f<'a>(c: &Cow<'a, str>) -> Cow<'a, str> { c.clone() }"),
+        ("deref-escape", false, "pub fn f() -> &'static str { let c: Cow<'static, str> = Cow::from_owned(String::from(\"x\")); &*c }"),
+        ("deref-control", true, "pub fn f<'c>(c: &'c Cow<'static, str>) -> &'c str { &**c }"),
+        ("as_ref-escape", false, "pub fn f() -> &'static str { let c: Cow<'static, str> = Cow::from_shared(Arc::from(\"x\")); let r: &str = c.as_ref(); r }"),
+        ("as_ref-borrowed-through-value-escape", false, "pub fn f<'a>(c: Cow<'a, str>) -> &'a str { let r: &str = c.as_ref(); r }"),
+        ("into_owned-control", true, "pub fn f() -> String { let s = String::from(\"x\"); let c = Cow::from_borrowed(s.as_str()); c.into_owned() }"),
+        ("to-std-cow-control", true, "pub fn f<'a>(c: Cow<'a, str>) -> String { c.into_owned() }"),
+    ];
+    let mut outcomes = std::collections::BTreeSet::new();
+    for (name, must_compile, body) in &probes {
+        res.executions += 1;
+        res.transitions += 1;
+        let file = dir.join(format!("{}.rs", name));
+        std::fs::write(&file, format!("{}{}\n", header, body)).unwrap();
+        let out = std::process::Command::new("rustc")
+            .current_dir("/repo/")
+            .args(["--edition", "2021", "--crate-type", "lib", "--emit=metadata", "--error-format=short", "-A", "warnings", "-o"])
+            .arg(dir.join(format!("{}.rmeta", name)))
+            .arg(&file)
+            .output();
+        let out = match out {
+            Ok(o) => o,
+            Err(e) => {
+                res.notes.push(format!("rustc could not be started: {}", e));
+                res.exhaustive = false;
+                return;
+            }
+        };
+        let err = String::from_utf8_lossy(&out.stderr).to_string();
+        let lifetime_error = ["E0515", "E0597", "E0521", "E0716", "E0505", "E0499", "E0502", "E0506", "E0310", "E0621", "lifetime may not live long enough", "does not live long enough"].iter().any(|m| err.contains(m));
+        let other_error = ["E0432", "E0433", "E0425", "E0599", "E0308", "E0277", "E0282", "E0283", "E0061", "E0412"].iter().any(|m| err.contains(m));
+        outcomes.insert((out.status.success(), lifetime_error));
+        let cfg = json!({"lifetime_probe": name});
+        if *must_compile {
+            if !out.status.success() {
+                if lifetime_error && !other_error {
+                    res.violation("borrow-within-its-lifetime-rejected", format!("control program {:?} keeps a borrow only for as long as the data lives and must compile: {}\n{}", name, body, err.chars().take(600).collect::<String>()), cfg);
+                } else {
+                    res.notes.push(format!("control probe {:?} no longer compiles for a reason other than lifetimes (API changed?): {}", name, err.chars().take(400).collect::<String>()));
+                    res.exhaustive = false;
+                }
+            }
+        } else if out.status.success() {
+            res.violation("cow-outlives-the-data-it-borrows", format!("this program compiles, and after it a Cow (or a reference obtained from one) refers to data that is gone: {}", body), cfg);
+        } else if !lifetime_error || other_error {
+            res.notes.push(format!("escape probe {:?} is rejected, but not (only) by a lifetime error: {}", name, err.chars().take(400).collect::<String>()));
+            res.exhaustive = false;
+        }
+    }
+    let _ = std::fs::remove_dir_all(&dir);
+    res.states = probes.len() as u64;
+    res.distinct_outcomes = outcomes.len() as u64;
+    res.bound = json!({"programs": probes.len(), "must_be_rejected": probes.iter().filter(|p| !p.1).count(), "controls": probes.iter().filter(|p| p.1).count()});
+    res.sample(json!({"rejected": "pub fn f() -> Cow<'static, str> { let s = String::from(\"x\"); Cow::from_borrowed(s.as_str()) }", "accepted": "pub fn f<'a>(s: &'a str) -> Cow<'a, str> { Cow::from_borrowed(s) }"}));
+}
+
 fn run(ctx: &Ctx, spec: &PartSpec) -> PartResult {
     let mut res = PartResult::new(&spec.name, "");
     let depth = spec.arg["depth"].as_u64().unwrap_or(5) as usize;
@@ -838,6 +925,7 @@ fn run(ctx: &Ctx, spec: &PartSpec) -> PartResult {
         "slice" => cow_part::<SliceDom>(ctx, &mut res, depth, first),
         "zst" => zst_part(&mut res),
         "auto" => auto_traits_part(&mut res),
+        "lifetimes" => lifetimes_part(ctx, &mut res),
         _ => public_api_part(ctx, &mut res, depth),
     }
     res
